@@ -100,6 +100,18 @@ int main()
       FileName a(uh(t[1])), b(uh(t[2]));
       o << hx((a + b).str()) << " " << hx((a + uh(t[2])).str());
     }
+    else if (k == "FO" && t.size() == 3) {
+      FileName a(uh(t[1])), b(uh(t[2]));
+      o << ((a == b) ? 1 : 0) << " " << ((a != b) ? 1 : 0) << " " << hx((a - b).str()) << " ";
+      // str(), c_str(), operator std::string and operator<< hand out the same string
+      std::ostringstream os;
+      os << a;
+      std::string conv = a;
+      o << ((conv == a.str() && std::string(a.c_str()) == std::string(a.str().c_str()) && os.str() == a.str()) ? 1 : 0) << " ";
+      // FileName(): the empty name; left identity of operator+
+      FileName e;
+      o << ((e.str().empty() && e == FileName("") && (e + b) == b && (e + uh(t[2])) == b) ? 1 : 0);
+    }
     else if (k == "AL") {
       std::vector<std::string> args; TableParser tp;
       for (size_t i = 1; i < t.size(); ++i) {
